@@ -56,6 +56,7 @@ struct Handle {
 	std::shared_ptr<File> file;
 	uint64_t pos = 0;
 	bool rd = false, wr = false, append = false, closed = false;
+	int deferred_err = 0;         // a lost write on this handle: reported by the next sync or close
 	int eintr_run = 0;            // consecutive writes answered with EINTR
 	int pending_err = 0;          // continuation of a short-then-error write
 	std::string pending_name;
@@ -146,6 +147,24 @@ ssize_t kwrite(Handle &h, const uint8_t *p, size_t n) {
 	}
 	size_t can = n;
 	if (const Fault *f = match("write", idx)) {
+		if (f->err.compare(0, 5, "lost_") == 0) {
+			// a lost write: the kernel accepts the data (full count returned) but it never reaches the medium; the
+			// error is reported when the file is synced or closed (deferred write-back error: NFS, quota, thin provisioning)
+			int e = errno_from_name(f->err.substr(5));
+			if (!e) e = EIO;
+			fire("write", f->err);
+			Bytes &d0 = h.file->data;
+			if (off + n > d0.size()) d0.resize(off + n, 0);      // the file has its length, the bytes are not there
+			h.pos = off + n;
+			h.deferred_err = e;
+			op.done = n;
+			op.fault = f->err;
+			op.bytes.assign(n, 0);
+			// what a crash image holds for this range is what the file holds: the old bytes (zeros where it grew)
+			for (size_t k = 0; k < n; k++) op.bytes[k] = d0[off + k];
+			push(std::move(op));
+			return (ssize_t)n;
+		}
 		if (f->err.compare(0, 6, "short_") == 0) {
 			int e = errno_from_name(f->err.substr(6));
 			if (!e) e = EIO;
@@ -305,6 +324,9 @@ int ck_close(void *c) {
 		if (!e) e = EIO;
 		fire("close", f->err);
 		op.err = e; op.fault = f->err; errno = e; rc = -1;
+	} else if (h.deferred_err) {
+		op.err = h.deferred_err; op.fault = "deferred"; errno = h.deferred_err; rc = -1;
+		h.deferred_err = 0;
 	}
 	push(std::move(op));
 	return rc;
@@ -469,6 +491,7 @@ int sim_sync(Handle &h) {
 	uint64_t idx = s.counts[OP_SYNC]++;
 	Op op; op.kind = OP_SYNC; op.path = h.path; op.handle = h.id;
 	if (h.closed) { op.err = EBADF; push(std::move(op)); errno = EBADF; return -1; }
+	if (h.deferred_err) { int e = h.deferred_err; h.deferred_err = 0; op.err = e; op.fault = "deferred"; push(std::move(op)); errno = e; return -1; }
 	if (const Fault *f = match("sync", idx)) {
 		int e = errno_from_name(f->err);
 		if (!e) e = EIO;
